@@ -43,11 +43,38 @@ class LazyOperator:
         self.args = args
         self.symbol = self.SYMBOLS[op.__name__]
 
-    def __str__(self):
+    # Python's operator precedence, used to write the parentheses the expression needs
+    PRECEDENCE = {"==": 1, "!=": 1, "<=": 1, "<": 1, ">=": 1, ">": 1, "+": 2, "-": 2, "*": 3, "/": 3, "**": 5}
+    UNARY_PRECEDENCE = 4
+
+    @property
+    def precedence(self):
         if len(self.args) == 1:
-            return f"{self.symbol}{self.args[0]}"
+            return self.UNARY_PRECEDENCE
+        return self.PRECEDENCE[self.symbol]
+
+    def _operand_str(self, arg, needs_parens):
+        # needs_parens: given the precedence of the operand, are parentheses required?
+        if isinstance(arg, LazyOperator) and needs_parens(arg.precedence):
+            return f"({arg})"
+        return str(arg)
+
+    def __str__(self):
+        prec = self.precedence
+        if len(self.args) == 1:
+            return f"{self.symbol}{self._operand_str(self.args[0], lambda p: p < prec)}"
+        if self.symbol == "**":
+            # Right associative, and binds tighter than a sign on its left
+            left = self._operand_str(self.args[0], lambda p: p <= prec)
+            right = self._operand_str(self.args[1], lambda p: p < self.UNARY_PRECEDENCE)
+        elif prec == 1:
+            # Comparisons do not chain
+            left = self._operand_str(self.args[0], lambda p: p <= prec)
+            right = self._operand_str(self.args[1], lambda p: p <= prec)
         else:
-            return f"{self.args[0]} {self.symbol} {self.args[1]}"
+            left = self._operand_str(self.args[0], lambda p: p < prec)
+            right = self._operand_str(self.args[1], lambda p: p <= prec)
+        return f"{left} {self.symbol} {right}"
 
     def __hash__(self):
         return hash((self.symbol, *self.args))
